@@ -40,15 +40,12 @@ fn main() {
         }
     }
     // the lax representation composes to the same gluing (operands may carry pending unifications of their own)
-    let (lsl, lsr) = (Spec::lax(2, 1, 1, 2, 1, 1, 2, 1), Spec::lax(2, 1, 1, 2, 1, 2, 1, 1));
+    let (lsl, lsr) = if quick { (Spec::lax(2, 1, 1, 1, 1, 1, 2, 1), Spec::lax(2, 1, 1, 1, 1, 2, 1, 1)) } else { (Spec::lax(2, 1, 1, 2, 1, 1, 2, 1), Spec::lax(2, 1, 1, 2, 1, 2, 1, 1)) };
     let ll: Vec<_> = lsl.universe().all().into_iter().filter(|l| l.label_consistent()).collect();
     let lr: Vec<_> = lsr.universe().all().into_iter().filter(|l| l.label_consistent()).collect();
     let nlr = lr.len() as u64;
-    let capl = if quick { 3_000_000 } else { u64::MAX };
-    ctx.run_slice(Slice::new(format!("lax-compose[{} x {} label-consistent lax diagrams, first {}]", ll.len(), nlr, capl.min(ll.len() as u64 * nlr)), (ll.len() as u64 * nlr).min(capl), |i, loc| {
-        // spread the prefix over both operands
-        let (a, b) = ((i * 7919) % ll.len() as u64, (i / ll.len() as u64 + i) % nlr);
-        ohmc::props::c10::check_pair(&ll[a as usize], &lr[b as usize], loc)
+    ctx.run_slice(Slice::new(format!("lax-compose[{} of {} x {} of {} (label-consistent)]", ll.len(), lsl.name(), nlr, lsr.name()), ll.len() as u64 * nlr, |i, loc| {
+        ohmc::props::c10::check_pair(&ll[(i / nlr) as usize], &lr[(i % nlr) as usize], loc)
     }));
     // structured gluing of many nodes into one class (long zig-zag chains, wire orders that grow deep union-find trees)
     let gp = ohmc::props::structured::gluing_pairs(if quick { 12 } else { 24 }, if quick { 6 } else { 7 });
